@@ -82,6 +82,16 @@ ENDING_NAMES = sorted(ENDINGS)
 PP_SIGNAL = 'cat "$2"\nkill -$1 $$\nsleep 5\n'
 
 
+HELPER_LINES = [
+    'file h1.txt = -stderr-from $ echo helper-out; echo helper-err >&2',
+    'file h2.txt = -stdout-from $ echo helper-out; echo helper-err >&2',
+    "run % sh -c 'echo helper-out; echo helper-err >&2'",
+    '$ echo helper-out; echo helper-err >&2',
+    "file h3.txt = 'x' -transformed-by run % sh -c 'cat; echo helper-out-2; echo helper-err >&2'",
+    "file h4.txt = -stdout-from % sh -c 'echo helper-out; echo helper-err >&2' -transformed-by char-case -to-upper",
+]
+
+
 def build(case):
     """-> (case text, argv)"""
     status, ending, mode, code = case['status'], case['ending'], case['mode'], case['code']
@@ -142,6 +152,10 @@ def build(case):
         ph['cleanup'].append('$ exit 3')
     elif ending == 'pass_preprocessed':
         argv_pre = ['--preprocessor', 'cat']
+    if case.get('helpers'):
+        # programs run on behalf of instructions write to stdout and stderr too: none of it is output of Exactly
+        ph['setup'][0:0] = HELPER_LINES
+        ph['cleanup'].append("file h5.txt = -stderr-from -ignore-exit-code $ echo helper-out; echo helper-err >&2; exit 1")
     order = case.get('order') or ['conf', 'setup', 'act', 'before-assert', 'assert', 'cleanup']
     lines = []
     for p in order:
@@ -225,7 +239,10 @@ def check(case) -> Verdict:
             sb_path_ok = (os.path.isdir(p) and [os.path.basename(p)] == sandboxes
                           and os.path.dirname(p) == ws.tmproot)
     labels = ['mode:' + mode, 'ending:' + ENDINGS[case['ending']][0], 'status:' + case['status']]
-    key = '%s|%s|%s|%d|%s|%s' % (case['status'], case['ending'], mode, case['code'], case['out'], case['err'])
+    key = '%s|%s|%s|%d|%s|%s|%s' % (case['status'], case['ending'], mode, case['code'], case['out'], case['err'],
+                                    bool(case.get('helpers')))
+    if case.get('helpers'):
+        labels.append('helper-programs')
     obs = {'exit': r.exit_code, 'out': r.out[:300], 'err': r.err[:600], 'sandboxes': sandboxes, 'act_ran': act_ran}
 
     def bad(what, **extra):
@@ -342,7 +359,8 @@ def enum_cases(tier):
                     and ENDINGS[ending][0] != 'complete' and not ending.startswith('hard_'):
                 continue  # exit code of an action that never runs: sample only
             yield {'status': status, 'ending': ending, 'mode': mode, 'code': code,
-                   'out': _TEXTS[(i + len(ending)) % len(_TEXTS)], 'err': _TEXTS[(i + len(status)) % len(_TEXTS)]}
+                   'out': _TEXTS[(i + len(ending)) % len(_TEXTS)], 'err': _TEXTS[(i + len(status)) % len(_TEXTS)],
+                   'helpers': i % 3 == 1}
 
 
 _text = st.text(alphabet=st.sampled_from(list('ab \n\tPé')), max_size=12) | st.sampled_from(_TEXTS) | \
@@ -359,6 +377,7 @@ def strategy(tier):
         'out': _text,
         'err': _text,
         'order': st.none() | _order,
+        'helpers': st.booleans(),
     })
 
 
